@@ -15,9 +15,10 @@ import string
 from . import common
 from . import c02
 from . import c02_tree as T
+from . import c08_hist as H
 
 PROPERTY = 'C08'
-LEAN_TARGETS = ['CpProofs.C08', 'drv_c08']
+LEAN_TARGETS = ['CpProofs.C08', 'CpProofs.C08Hist', 'drv_c08']
 DRIVER = 'drv_c08'
 THEOREMS = [
     'CpProofs.C08.get_append',
@@ -33,6 +34,13 @@ THEOREMS = [
     'CpProofs.C08.C08_unrepr_partial',
     'CpProofs.C08.C08_unrepr_dichotomy',
     'CpProofs.C08.C08_unrepr_set_rejected',
+    'CpProofs.C08.live_sites_copy',
+    'CpProofs.C08.req_preserves_world',
+    'CpProofs.C08.C08_history_independent',
+    'CpProofs.C08.C08_history_requests_invisible',
+    'CpProofs.C08.alias_breaks_independence',
+    'CpProofs.C08.C08_merge_section',
+    'CpProofs.C08.C08_handler_tool_args',
 ]
 LEVEL = 'proof'
 TECHNIQUE = ('Lean 4 proof: set_conf over the object trail refined to a level-by-level declarative merge (induction over the '
@@ -78,22 +86,41 @@ GEN_KEYS = PLAIN_KEYS + ALL_TOOL_KEYS + RARE_KEYS + NS_KEYS + ['tools.staticdir.
 PROBE_TOOLS = ['p1', 'p2']
 ON_VALUES = [True, True, True, False, 0, 1, '', 'yes', None]
 
-TOOL_JOURNAL = []
-_TOOLS_READY = [False]
+# the probe tools (cherrypy.tools.p1 / p2 / h1) and their journal are shared with the history runner
+TOOL_JOURNAL = H.TOOL_JOURNAL
+ensure_tools = H.ensure_tools
 
 
-def ensure_tools():
+def probe_copy_sites():
+    """(Tool._merged_args copies the dict it is given, set_conf() copies cherrypy.config) measured on the live
+    code; True when the probe cannot tell (the differential run decides then)."""
     cherrypy = T.cp()
-    if _TOOLS_READY[0]:
-        return
-    for name in PROBE_TOOLS:
-        def mk(name):
-            def probe_tool(**kw):
-                TOOL_JOURNAL.append((name, dict(kw)))
-            probe_tool.__name__ = 'probe_' + name
-            return probe_tool
-        setattr(cherrypy.tools, name, cherrypy.Tool('on_start_resource', mk(name)))
-    _TOOLS_READY[0] = True
+    merged = setconf = True
+    try:
+        class FakeRequest:
+            toolmaps = {'tools': {'c08probe': {'on': True, 'b': 2}}}
+        tool = cherrypy._cptools.HandlerTool(lambda **kw: True, name='c08probe')
+        d = {'a': 1}
+        saved = cherrypy.serving.request
+        cherrypy.serving.request = FakeRequest()
+        try:
+            r = tool._merged_args(d)
+        finally:
+            cherrypy.serving.request = saved
+        merged = (r is not d) and d == {'a': 1}
+    except Exception:
+        pass
+    try:
+        spec = {'nodes': [{'exp': None, 'call': None, 'falsy': False, 'meth': [['index', {'exp': True}]], 'vals': [],
+                           'kids': [], 'disp': None, 'conf': None}]}
+        runner = T.Runner(T.Built(spec), 'D', sections={'/': {'c08probe.k': 1}})
+        runner.get('/')
+        if 'c08probe.k' in cherrypy.config:
+            setconf = False
+            dict.pop(cherrypy.config, 'c08probe.k', None)
+    except Exception:
+        pass
+    return merged, setconf
 
 
 def tables(ctx):
@@ -109,8 +136,14 @@ namespace CpModel.Gen.C08
 def builderNodes : List String :=
   [%s]
 
+/-- does `Tool._merged_args(d)` leave `d` alone (`conf = d.copy()`)?  Measured by calling it. -/
+def mergedArgsCopies : Bool := %s
+
+/-- does `set_conf()` build `request.config` from a copy of `cherrypy.config`?  Measured by one request. -/
+def setConfCopies : Bool := %s
+
 end CpModel.Gen.C08
-''' % ', '.join('"%s"' % n for n in names)
+''' % ((', '.join('"%s"' % n for n in names),) + tuple('true' if b else 'false' for b in probe_copy_sites()))
     out = dict(c02.tables(ctx))
     out['CpModel/Gen/C08Tables.lean'] = src
     return out
@@ -233,7 +266,7 @@ def run_config_case(case):
             o['config'] = None if cfg is None else {k: cfg[k] for k in GEN_KEYS if k in cfg}
             tm = getattr(req, 'toolmaps', {}).get('tools', {}) if req is not None else {}
             o['toolmap'] = {t: dict(tm[t]) for t in PROBE_TOOLS if t in tm}
-            o['tools_ran'] = sorted((n, sorted(kw.items())) for n, kw in TOOL_JOURNAL)
+            o['tools_ran'] = sorted((n, sorted(kw.items())) for n, kw, _live in TOOL_JOURNAL)
             o['global_seen'] = {k: cherrypy.config[k] for k in GEN_KEYS if k in cherrypy.config}
             attr = getattr(req, 'c08attr', missing) if req is not None else missing
             o['request_attr'] = None if attr is missing else ['set', attr]
@@ -856,19 +889,116 @@ def classify_exc(e):
     return 'other:' + type(e).__name__
 
 
+def _mutate_all(v, seen=None):
+    """One more item in every list / dict inside v (what an application may do to a value it was given)."""
+    n = 0
+    if isinstance(v, list):
+        for x in list(v):
+            n += _mutate_all(x)
+        v.append('c08-extra')
+        n += 1
+    elif isinstance(v, dict):
+        for x in list(v.values()):
+            n += _mutate_all(x)
+        v['c08-extra'] = 1
+        n += 1
+    elif isinstance(v, tuple):
+        for x in v:
+            n += _mutate_all(x)
+    return n
+
+
+def shared_object_probe(reprconf, text):
+    """Values are fresh per evaluation: the same text evaluated twice (by unrepr, in two sections of one INI
+    file, by two loads of the file) gives independent objects - changing one in place leaves the others alone."""
+    try:
+        a = reprconf.unrepr(text)
+        b = reprconf.unrepr(text)
+    except Exception:
+        return None
+    if not H.containers_in(a) and not isinstance(a, tuple):
+        return None
+    before = repr(b)
+    if not _mutate_all(a):
+        return None
+    if repr(b) != before:
+        return ('unrepr(%r) twice gives one shared object: changing the first result in place changed the second from %s to %r'
+                % (text, before, b))
+    try:
+        c = reprconf.unrepr(text)
+    except Exception:
+        return None
+    if repr(c) != before:
+        return 'unrepr(%r) = %r after an earlier result was changed in place (first evaluation gave %s)' % (text, c, before)
+    if text.strip() != text or '\n' in text:
+        return None
+    ini = '[/s]\nkey = %s\n[/t]\nkey = %s\nother = %s\n' % ((text.replace('%', '%%'),) * 3)
+    try:
+        d1 = reprconf.Parser().dict_from_file(io.StringIO(ini))
+        d2 = reprconf.Parser.load(io.StringIO(ini))
+    except Exception:
+        return None
+    _mutate_all(d1['/s']['key'])
+    for where, v in (('[/t] key of the same file', d1['/t']['key']), ('[/t] other of the same file', d1['/t']['other']),
+                     ('[/s] key of a second load', d2['/s']['key'])):
+        if repr(v) != before:
+            return ('INI value %s: changing [/s] key in place changed the %s to %r' % (text, where, v))
+    return None
+
+
+def rebind_probe(ctx):
+    """Dotted names are evaluated on every load: after the attribute is rebound the same text gives the new object."""
+    import sys
+    import types
+    from cherrypy.lib import reprconf
+    mod = types.ModuleType('c08_rebind_probe')
+    sys.modules['c08_rebind_probe'] = mod
+    try:
+        for text, mk in (('c08_rebind_probe.V', lambda v: v), ('[c08_rebind_probe.V]', lambda v: [v]),
+                         ('dict(a=c08_rebind_probe.V)', lambda v: {'a': v}), ('c08_rebind_probe.f(1)', lambda v: (v, 1))):
+            case = {'lit': {'text': text, 'kind': 'rebind'}}
+            ctx.case(case, nontrivial=True, key='rebind:' + text)
+            for v in (10, 'second', 20):
+                mod.V = v
+                mod.f = (lambda v: lambda x: (v, x))(v)
+                for how in ('unrepr', 'ini'):
+                    try:
+                        if how == 'unrepr':
+                            got = reprconf.unrepr(text)
+                        else:
+                            got = reprconf.Parser.load(io.StringIO('[/s]\nk = %s\n' % text))['/s']['k']
+                    except Exception as e:
+                        ctx.oracle_fail(case, '%s of %r raised %s' % (how, text, type(e).__name__), 'unrepr_rejects:rebind')
+                        continue
+                    if got != mk(v):
+                        ctx.oracle_fail(case, '%s of %r gives %r after the attribute was rebound to %r (the equivalent dict value is %r)'
+                                        % (how, text, got, v, mk(v)), 'unrepr_stale_name')
+    finally:
+        sys.modules.pop('c08_rebind_probe', None)
+
+
 def check_literal_cases(ctx, cases, compare_model=True):
     """cases: {'lit': {'text': str, 'kind': 'value'|'dotted'|'hand'}}"""
     from cherrypy.lib import reprconf
     lines = []
     meta = []
+    if len(cases) > 1:
+        rebind_probe(ctx)
     for case in cases:
         text, kind = case['lit']['text'], case['lit']['kind']
+        if kind == 'rebind':
+            rebind_probe(ctx)
+            continue
         ctx.case(case, nontrivial=True, key='lit:' + text)
         ctx.count('lit:' + kind)
         try:
             got = ('ok', reprconf.unrepr(text))
         except Exception as e:
             got = ('err', classify_exc(e))
+        if got[0] == 'ok' and kind != 'dotted':
+            bad = shared_object_probe(reprconf, text)
+            if bad:
+                ctx.oracle_fail(case, bad, 'unrepr_shared_object')
         if kind == 'eval' and got[0] == 'ok':
             import os as _os
             try:
@@ -987,6 +1117,9 @@ def corpus_cases():
 
 
 def check_any(ctx, cases, compare_model=True):
+    hist = [c for c in cases if 'hist' in c]
+    if hist:
+        H.check_hist_cases(ctx, hist, compare_model)
     conf = [c for c in cases if 'tree' in c]
     for c in conf:
         c['reqs'] = [tuple(r) for r in c['reqs']]
@@ -1017,6 +1150,7 @@ def _worker(args):
     sub.rng = random.Random(seed)
     sub.lean = _WORKER_LEAN[0]
     check_config_cases(sub, [gen_config_case(sub.rng, i) for i in range(n)])
+    H.check_hist_cases(sub, [H.gen_hist_case(sub.rng, i) for i in range(n // 2)])
     check_fc_cases(sub, [gen_fc_case(sub.rng) for _ in range(n * 4)])
     check_literal_cases(sub, gen_literal_cases(sub.rng, n * 4))
     return _export(sub)
@@ -1071,6 +1205,7 @@ def run(ctx):
         ctx.count('corpus')
     if ctx.quick():
         check_config_cases(ctx, [gen_config_case(ctx.rng, i) for i in range(800)])
+        H.check_hist_cases(ctx, [H.gen_hist_case(ctx.rng, i) for i in range(300)])
         check_fc_cases(ctx, [gen_fc_case(ctx.rng) for _ in range(3000)])
         check_literal_cases(ctx, gen_literal_cases(ctx.rng, 2500))
         return
@@ -1095,11 +1230,15 @@ def search(ctx, around=None):
         if ctx.oracle_failures:
             return
     check_config_cases(ctx, [gen_config_case(ctx.rng, 7 * i) for i in range(800)], compare_model=False)
+    H.check_hist_cases(ctx, [H.gen_hist_case(ctx.rng, i) for i in range(600)], compare_model=False)
     check_fc_cases(ctx, [gen_fc_case(ctx.rng) for _ in range(5000)], compare_model=False)
     check_literal_cases(ctx, gen_literal_cases(ctx.rng, 5000), compare_model=False)
 
 
 def replay(ctx, case):
+    if 'hist' in case:
+        H.replay(ctx, case)
+        return
     if 'tree' in case:
         case = dict(case)
         case['reqs'] = [tuple(r) for r in case['reqs']]
